@@ -5,6 +5,7 @@ package main
 
 import (
 	"bytes"
+	_ "embed"
 	"crypto/aes"
 	"crypto/cipher"
 	"crypto/sha256"
@@ -27,6 +28,8 @@ import (
 	"gitlab.com/aquachain/aquachain/crypto"
 	"gitlab.com/aquachain/aquachain/verifharness/vh"
 	"golang.org/x/crypto/pbkdf2"
+	"golang.org/x/text/unicode/norm"
+	"golang.org/x/text/width"
 	"golang.org/x/crypto/scrypt"
 )
 
@@ -471,6 +474,9 @@ func genPass(r *vh.RNG, i int) string {
 	if i%7 == 5 {
 		return edgePass[(i/7)%len(edgePass)]
 	}
+	if i%7 == 3 || i%7 == 6 {
+		return exoticPass[(i/7*2+i%7/6)%len(exoticPass)]
+	}
 	switch i % 5 {
 	case 0:
 		return ""
@@ -837,6 +843,7 @@ func (h *harness) passphrases(spec fileSpec, n int) {
 	p := []rune(spec.pass)
 	var alts []string
 	alts = append(alts, spec.pass+" ", " "+spec.pass, spec.pass+"\x00", strings.ToUpper(spec.pass), spec.pass+spec.pass)
+	alts = append(alts, unicodeVariants(spec.pass)...)
 	if len(p) > 0 {
 		alts = append(alts, string(p[:len(p)-1]), string(p[1:]), "")
 		for k := 0; k < n; k++ {
@@ -883,6 +890,24 @@ func (h *harness) encryptCase(r *vh.RNG, key *btcec.PrivateKey, pass string, n, 
 	if len(dk) >= 32 {
 		ct, err := keystore.VerifAesCTRXOR(dk[:16], kb, ps.iv)
 		ctrT = vh.Hex(dk[:16]) + ":" + vh.Hex(ps.iv) + ":" + vh.Hex(kb) + "=" + presHex(ct, err, false)
+	}
+	// direct oracle (KDF input): the MAC of the written file is the one derived from exactly []byte(passphrase)
+	if len(dk) >= 32 && ps.ctOK {
+		var doc struct {
+			Crypto struct {
+				MAC string `json:"mac"`
+			} `json:"crypto"`
+		}
+		json.Unmarshal(js, &doc)
+		if hex.EncodeToString(crypto.Keccak256(dk[16:32], ps.ct)) != doc.Crypto.MAC {
+			form := "unknown"
+			for name, f := range map[string]string{"NFC": norm.NFC.String(pass), "NFD": norm.NFD.String(pass), "NFKC": norm.NFKC.String(pass), "NFKD": norm.NFKD.String(pass), "lower": strings.ToLower(pass), "trimmed": strings.TrimSpace(pass)} {
+				if alt, e := scrypt.Key([]byte(f), ps.salt, n, 8, p, 32); e == nil && hex.EncodeToString(crypto.Keccak256(alt[16:32], ps.ct)) == doc.Crypto.MAC {
+					form = name
+				}
+			}
+			c.Violate("kdf-input-not-passphrase-bytes/"+form+"/"+strconv.Quote(pass), "EncryptKey derived the key from something other than the bytes of the passphrase ("+form+" form)", map[string]string{"json": string(js), "passphrase": pass, "right_passphrase": pass, "original_key": vh.Hex(kb), "address": vh.Hex(addr[:]), "tampered": ""})
+		}
 	}
 	idstr := k.Id.String()
 	req := fmt.Sprintf("encrypt 0x%x %s %s %s %s %s %d %d %s %s", new(big.Int).SetBytes(kb), vh.Hex(addr[:]), vh.Hex([]byte(idstr)), vh.Hex([]byte(pass)), vh.Hex(ps.salt), vh.Hex(ps.iv), n, p, kk+"="+res, ctrT)
@@ -1047,6 +1072,170 @@ func (h *harness) keystoreFlow(r *vh.RNG, i int) {
 	c.Count(fmt.Sprintf("keystore-flow/unlock-after-iv-tamper:%v", uerr == nil))
 }
 
+// ------------------------------------------------------------ Unicode: the passphrase is a byte string
+
+// exotic passphrases: not in NFKC/NFC form, or not valid UTF-8 at all.  The key derivation must see exactly these bytes.
+var exoticPass = []string{
+	"pＡssword",          // full-width A
+	"ﬁsh and chips",     // ligature fi
+	"secret ²",          // superscript two
+	"école",            // e + combining acute (NFD form)
+	"Ångström",     // Angstrom sign
+	"K elvin 273",       // Kelvin sign
+	"\x80\xfe\xff\xc3 bytes", // invalid UTF-8
+	"Ǆungla ẛ̣", // DZ-caron digraph, long s with dots
+}
+
+// unicodeVariants: passphrases a user (or a normalising implementation) would consider "the same" but that are
+// different byte strings: they must be rejected
+func unicodeVariants(p string) []string {
+	seen := map[string]bool{p: true}
+	var out []string
+	add := func(v string) {
+		if !seen[v] && !kdfEquivalent(v, p) {
+			seen[v] = true
+			out = append(out, v)
+		}
+	}
+	add(norm.NFC.String(p))
+	add(norm.NFD.String(p))
+	add(norm.NFKC.String(p))
+	add(norm.NFKD.String(p))
+	add(width.Fold.String(p))
+	add(width.Narrow.String(p))
+	add(width.Widen.String(p))
+	add(strings.ToLower(p))
+	add(strings.ToUpper(p))
+	add(strings.ToValidUTF8(p, "�"))
+	add(norm.NFKC.String(strings.ToLower(p)))
+	return out
+}
+
+//go:embed testdata/corpus.json
+var corpusJSON []byte
+
+type corpusEntry struct {
+	Kind       string `json:"kind"`
+	Passphrase string `json:"passphrase_hex"`
+	Key        string `json:"key_hex"`
+	Address    string `json:"address"`
+	JSON       string `json:"json"`
+}
+
+// writeCorpus generates the committed corpus ONCE with the code as it is at that moment
+func writeCorpus(path string) {
+	r := vh.NewRNG(20260923)
+	var ents []corpusEntry
+	for i, p := range exoticPass {
+		for _, kind := range []string{"scrypt-v3", "pbkdf2-v3", "scrypt-v1"} {
+			key := genKey(r, i%3)
+			var js []byte
+			if kind == "scrypt-v3" {
+				n, pp := 4, 1
+				if i < 3 {
+					n, pp = keystore.LightScryptN, keystore.LightScryptP
+				}
+				k := &keystore.Key{Id: []byte{0x31, 0x98, 0xbc, 0x9c, 0x66, 0x72, 0x4a, 0xb3, 0x99, 0x95, 0x49, 0x42, 0x34, 0x3a, 0xe5, 0xb6}, Address: crypto.PubkeyToAddress(key.PubKey()), PrivateKey: key}
+				var err error
+				if js, err = keystore.EncryptKey(k, p, n, pp); err != nil {
+					panic(err)
+				}
+			} else {
+				js = buildManual(r, kind, key, p)
+			}
+			a := crypto.PubkeyToAddress(key.PubKey())
+			ents = append(ents, corpusEntry{kind, hex.EncodeToString([]byte(p)), hex.EncodeToString(crypto.FromECDSA(key)), hex.EncodeToString(a[:]), string(js)})
+		}
+	}
+	b, _ := json.MarshalIndent(ents, "", " ")
+	if err := os.WriteFile(path, b, 0o644); err != nil {
+		panic(err)
+	}
+	fmt.Println("wrote", len(ents), "corpus entries to", path)
+}
+
+func (h *harness) corpus() {
+	c := h.c
+	var ents []corpusEntry
+	if err := json.Unmarshal(corpusJSON, &ents); err != nil || len(ents) == 0 {
+		c.Fatal("committed corpus testdata/corpus.json unusable: %v", err)
+	}
+	for i, e := range ents {
+		pass, _ := hex.DecodeString(e.Passphrase)
+		kb, _ := hex.DecodeString(e.Key)
+		spec := fileSpec{kind: "corpus/" + e.Kind, js: []byte(e.JSON), kb: kb, addr: common.HexToAddress(e.Address), pass: string(pass)}
+		h.check("corpus/"+e.Kind+"/own-passphrase", spec, spec.js, spec.pass, "")
+		vs := unicodeVariants(spec.pass)
+		if strings.Contains(e.JSON, `"n":4096`) && !c.Thorough() && len(vs) > 3 {
+			vs = vs[:2] // light scrypt: a few variants in the quick tier
+		}
+		for _, v := range vs {
+			h.check("corpus/"+e.Kind+"/unicode-equivalent-passphrase", spec, spec.js, v, "")
+		}
+		_ = i
+	}
+}
+
+// attackerMACs: weakened KDF parameters with the MAC recomputed for a degenerate (empty / all-zero) MAC key, which
+// an attacker can do without the passphrase.  Nothing of this may open with any passphrase.
+func (h *harness) attackerMACs(spec fileSpec) {
+	var doc map[string]interface{}
+	d := json.NewDecoder(bytes.NewReader(spec.js))
+	d.UseNumber()
+	d.Decode(&doc)
+	cr := doc["crypto"].(map[string]interface{})
+	kp := cr["kdfparams"].(map[string]interface{})
+	ct, _ := hex.DecodeString(cr["ciphertext"].(string))
+	for _, dklen := range []int{0, 1, 15, 16, 17, 31, 32, 48} {
+		z := dklen - 16
+		if z < 0 {
+			z = 0
+		}
+		macs := map[string][]byte{"mac=keccak(ct)": crypto.Keccak256(ct), "mac=keccak(0^16|ct)": crypto.Keccak256(make([]byte, 16), ct), "mac=keccak(0^(dklen-16)|ct)": crypto.Keccak256(make([]byte, z), ct)}
+		for name, mac := range macs {
+			kp["dklen"] = json.Number(strconv.Itoa(dklen))
+			cr["mac"] = hex.EncodeToString(mac)
+			mut, _ := json.Marshal(doc)
+			for _, pass := range []string{spec.pass + "?", "attacker", spec.pass} {
+				if pass == spec.pass && dklen == 32 {
+					continue
+				}
+				label := fmt.Sprintf("kdfparams.dklen=%d,%s", dklen, name)
+				if pass == spec.pass {
+					h.check(spec.kind+"/attacker-mac", spec, mut, pass, label)
+				} else {
+					h.checkForged(spec, mut, pass, label)
+				}
+			}
+		}
+	}
+}
+
+// checkForged: a document an attacker assembled without the passphrase, tried with some passphrase
+func (h *harness) checkForged(spec fileSpec, js []byte, pass, label string) {
+	c := h.c
+	ps := parseFile(js)
+	if !ps.ok {
+		return
+	}
+	tb := makeTables(ps, []byte(pass))
+	if tb.heavy {
+		return
+	}
+	d := observe(func() (*keystore.Key, error) { return keystore.DecryptKey(js, pass) }, tb.plain)
+	c.Eval(spec.kind+"/attacker-mac/any-passphrase", "")
+	args := " " + ps.tok + " " + vh.Hex([]byte(pass)) + " " + tb.kdf + " " + tb.ctr + " " + tb.cbc + " " + tb.addr
+	c.Correspond("DecryptKey~decrypt_key", string(js)+" pass="+strconv.Quote(pass), d.s, h.m.Ask("decrypt"+args))
+	if d.ok {
+		c.Violate("forged-file-accepted/"+label+"/"+strconv.Quote(pass)+"/"+string(js), "a key file whose MAC was recomputed without the passphrase (weakened dklen, degenerate MAC key) is accepted by DecryptKey with a passphrase that is not the file's",
+			map[string]string{"json": string(js), "passphrase": pass, "right_passphrase": spec.pass, "original_key": vh.Hex(spec.kb), "address": vh.Hex(spec.addr[:]), "tampered": label, "decryptkey": d.s, "forged": "1"})
+	} else if d.s == "panic" && panicClass(d) != "dklen" {
+		c.Violate("decryptkey-panic/"+label+"/"+fmt.Sprint(d.pv)+"/"+string(js), "DecryptKey panics on a forged key file", map[string]string{"json": string(js), "passphrase": pass})
+	} else if d.s == "panic" {
+		c.Count("panic-class/dklen/" + label)
+	}
+}
+
 // ------------------------------------------------------------ stateful KeyStore histories
 
 const (
@@ -1109,6 +1298,9 @@ func wrongPass(r *vh.RNG, cur string, others []string) string {
 		default:
 			w = " " + cur
 		}
+		if vs := unicodeVariants(cur); len(vs) > 0 && r.Chance(40) {
+			w = vs[r.Intn(len(vs))]
+		}
 		if !kdfEquivalent(w, cur) {
 			return w
 		}
@@ -1127,6 +1319,8 @@ func genHistory(r *vh.RNG, n int) []string {
 		p := base[(off+i)%4]
 		if r.Chance(30) {
 			p = edgePass[r.Intn(len(edgePass))]
+		} else if r.Chance(35) {
+			p = exoticPass[r.Intn(len(exoticPass))]
 		}
 		cur = append(cur, p)
 		kind := "new"
@@ -1511,6 +1705,10 @@ func (h *harness) reportHistory(res hresult, i int) {
 // ------------------------------------------------------------ main
 
 func main() {
+	if p := os.Getenv("C20_WRITE_CORPUS"); p != "" {
+		writeCorpus(p)
+		return
+	}
 	c := vh.Init("C20")
 	m := c.StartModel()
 	defer m.Close()
@@ -1541,6 +1739,7 @@ func main() {
 		c.Correspond("hex.DecodeString~hex_decode", s, o, m.Ask("hexdec "+vh.Hex([]byte(s))))
 	}
 
+	t0 := time.Now()
 	var specs []fileSpec
 	// 1. EncryptKey round trips: keys x passphrases x scrypt parameters
 	nEnc := c.Scale(12, 120)
@@ -1589,6 +1788,7 @@ func main() {
 		h.passphrases(spec, c.Scale(1, 4))
 		specs = append(specs, spec)
 	}
+	c.Note("phase files-done at %.1fs", time.Since(t0).Seconds())
 	// 3. character sweeps and structural tampering
 	done := map[string]int{}
 	for _, spec := range specs {
@@ -1596,7 +1796,7 @@ func main() {
 		if done[spec.kind] <= c.Scale(1, 2) {
 			h.sweepCharacters(spec, c.Thorough(), 1)
 			h.structural(spec)
-		} else if done[spec.kind] <= c.Scale(2, 12) {
+		} else if done[spec.kind] <= c.Scale(1, 12) {
 			h.sweepCharacters(spec, false, c.Scale(13, 3))
 		}
 	}
@@ -1614,8 +1814,23 @@ func main() {
 		h.check("scrypt-v3/version-downgrade", spec, mut, pass, "version=1")
 		break
 	}
+	phase := func(n string) { c.Note("phase %s at %.1fs", n, time.Since(t0).Seconds()) }
+	phase("sweeps-done")
+	// 3a'. the committed corpus (files written once, under passphrases that are not NFC/NFKC-stable or not UTF-8)
+	h.corpus()
+	phase("corpus-done")
+	// 3a''. weakened parameters with an attacker-recomputed MAC
+	forged := map[string]int{}
+	for _, spec := range specs {
+		forged[spec.kind]++
+		if forged[spec.kind] <= c.Scale(1, 6) {
+			h.attackerMACs(spec)
+		}
+	}
+	phase("forged-done")
 	// 3c. stateful KeyStore histories against the lock-state machine
 	h.histories()
+	phase("histories-done")
 	// 4. KeyStore API
 	for i := 0; i < c.Scale(4, 24); i++ {
 		h.keystoreFlow(r, i)
